@@ -247,7 +247,10 @@ CHECKS = {
                    "worker generates a contract receive the harness generates it under recover (pre-flight): a panic or internal "
                    "error is a violation with the send block as replay; for every receive whose method failed, the receive must "
                    "carry exactly one refund of (amount, token) to the sender (none for amount 0); after every momentum every "
-                   "contract inbox must be drained (no wedge).",
+                   "contract inbox must be drained (no wedge). TestC09Race (race detector): the same while 2-6 client goroutines "
+                   "query the embedded namespaces and validate call data (what publishRawTransaction does outside the insert "
+                   "lock) - shared ABI decoding state; a detected race, a panic in the receive generation or in a query is a "
+                   "violation.",
         level_note="Bridge/liquidity administrator-only success paths are reached only where no administrator key is needed (their "
                    "failure paths are exercised); the C01 identity checks value conservation of the same histories.",
         technique="stateful property-based testing (rapid) with ABI-derived argument generators and a pre-flight crash oracle",
@@ -255,7 +258,8 @@ CHECKS = {
              "received at/after a spork enforcement height; accepted-method histogram in counters",
         assumptions=HIST_ASSUME,
         death_is_violation=True,
-        jobs=[dict(test="TestC09", quick=T(8, 30, 60), thorough=T(16, 300, 90, 3000))],
+        jobs=[dict(test="TestC09", quick=T(8, 30, 60), thorough=T(16, 300, 90, 3000)),
+              dict(test="TestC09Race", race=True, quick=T(2, 8), thorough=T(6, 60, 0, 3000))],
     ),
     "C17": dict(
         level="exploration",
